@@ -137,6 +137,8 @@ def bounded(tier, seed):
              "| a... | b |\n|---|---|\n| ... | c...d |\n", "# Head... ing\n\nend...\n",
              # dot runs inside template tags are template syntax / data
              'Use {% x "foo...bar" %} and {{ a...b }} and {# wait...so #} here... ok.\n',
+             "Well... see {% include 'a...b' %} and then... {{ c...d }} ok... fine {# e...f #} end...\n",
+             "so... {{ x...y }}\nand... {% t 'p...q' %} more... text <!-- r...s --> last...\n",
              '- item {% set r = 1...5 %} text...\n\n> {{ items[1...3] }} quoted... end\n', '{% note title="so...then" %}\nbody... text\n{% /note %}\n']
     for d in docs:
         o = dict(width=88, semantic=False)
